@@ -8,7 +8,7 @@
    and however many actions share one due time (the histories are arbitrary).
    Histories with periodic work are excluded here (an undisposed periodic action
    keeps start() busy forever by design; see C35). *)
-From RxVerif Require Import Base.Prelude Core.VTime Core.VTimeFacts.
+From RxVerif Require Import Base.Prelude Core.VTime Core.VTimeFacts Core.VTAdvance.
 
 (* Every history returns from every start()/advance_to()/advance_by() call. *)
 Theorem C29_histories_terminate : forall k fuel c0 h,
@@ -50,6 +50,44 @@ Theorem C29_restartable : forall c fuel s, enabled s = false -> queue s = [] ->
 Proof. exact start_drained. Qed.
 Print Assumptions C29_restartable.
 
+(* Between top-level calls the scheduler is stopped: a call made on a stopped scheduler
+   that returns normally leaves it stopped (any call, any state, any pending work) ... *)
+Theorem C29_call_leaves_stopped : forall c fuel s cmd s',
+  enabled s = false -> step_t c fuel s cmd = Finished s' -> enabled s' = false.
+Proof. exact step_t_stays_stopped. Qed.
+Print Assumptions C29_call_leaves_stopped.
+
+(* ... hence after ANY history that ran to its end without an exception leaving a
+   top-level call, _is_enabled is False (the hypothesis of C29_start_runs_everything and
+   C28_advance_to).  "Ran to its end" is needed: in the out-of-fuel state the flag is
+   still set, see C29_out_of_fuel_state_is_enabled *)
+Theorem C29_stopped_between_calls : forall c fuel c0 h s',
+  run c fuel (init c0) h = RDone s' -> (forall e, ~ In (EExc e) (log s')) -> enabled s' = false.
+Proof. exact hist_stopped. Qed.
+Print Assumptions C29_stopped_between_calls.
+
+(* RESTART, as one statement about whole histories: any history of calm calls (schedule /
+   cancel / note / forward sleep with bodies that never stop, raise or subscribe
+   periodically, and any start(), TestScheduler.start(), advance_to(), advance_by() --
+   so any number of earlier drains) followed by start() runs to its end: the queue is
+   empty, the scheduler is stopped and EVERY action ever scheduled has been dequeued *)
+Theorem C29_calm_history_then_start_drains : forall k fuel c0 h sl,
+  Forall (calm_top sl) h -> (hsize h <= fuel)%nat ->
+  exists s', run (Cfg k false) fuel (init c0) (h ++ [TStart]) = RDone s' /\
+             queue s' = [] /\ enabled s' = false /\
+             forall id, (id < next_id s')%nat -> In id (map r_id (pops (log s'))).
+Proof. exact calm_history_start_drains. Qed.
+Print Assumptions C29_calm_history_then_start_drains.
+
+(* in particular: drain, schedule more, start again *)
+Theorem C29_restart_runs_everything : forall k fuel c0 h1 h2 sl,
+  Forall (calm_top sl) (h1 ++ h2) -> (hsize (h1 ++ h2) <= fuel)%nat ->
+  exists s', run (Cfg k false) fuel (init c0) (h1 ++ [TStart] ++ h2 ++ [TStart]) = RDone s' /\
+             queue s' = [] /\ enabled s' = false /\
+             forall id, (id < next_id s')%nat -> In id (map r_id (pops (log s'))).
+Proof. exact restart_runs_everything. Qed.
+Print Assumptions C29_restart_runs_everything.
+
 (* ---- witnesses ------------------------------------------------------ *)
 
 (* [same_instant n]: n actions scheduled for the current instant; [count_runs]: Core/VTimeFacts.v *)
@@ -82,3 +120,25 @@ Example C29_original_code_101_ok :
   match run (Cfg Datetime true) 200 (init 0) (same_instant 101 ++ [TStart]) with
   | RDone _ => true | _ => false end = true.
 Proof. vm_compute. reflexivity. Qed.
+
+(* the hypotheses of C29_restart_runs_everything hold of a non-trivial pair of histories
+   (nested scheduling, sleeping; action 0 cancels the action it has just scheduled, id 2 =
+   label 1, which is dequeued at 7 and skipped) and the run is as stated *)
+Example C29_witness_restart :
+  let h1 := [TDo (SSched (Abs 5) 0 [SSched (Rel 2) 1 [SSleep 3]; SCancel 2]); TDo (SSched (Rel 1) 2 [])] in
+  let h2 := [TDo (SSched Now 3 [SSched (Rel 4) 4 []]); TAdvBy 1] in
+  forallb (fun c => match c with TDo k => calm_cmd true k | _ => true end) (h1 ++ h2) = true /\
+  (hsize (h1 ++ h2) <= 5)%nat /\
+  observe (run (Cfg Numeric false) 5 (init 0) (h1 ++ [TStart] ++ h2 ++ [TStart]))
+  = [OClock 0; OClock 0; ORun 2 1; ORun 0 5; OClock 7; OClock 7; ORun 3 7; OClock 8;
+     ORun 4 11; OClock 11].
+Proof. vm_compute. repeat split; try reflexivity; lia. Qed.
+
+(* why C29_stopped_between_calls needs the run to reach its end: when the fuel runs out
+   inside start() the state is a mid-loop state with the flag set (and no exception) *)
+Example C29_out_of_fuel_state_is_enabled :
+  let r := run (Cfg Numeric false) 0 (init 0) [TDo (SSched Now 0 []); TStart] in
+  match r with ROutOfFuel _ => true | _ => false end = true /\
+  enabled (state_of r) = true /\
+  existsb (fun e => match e with EExc _ => true | _ => false end) (log (state_of r)) = false.
+Proof. vm_compute. repeat split; reflexivity. Qed.
